@@ -595,13 +595,12 @@ def gen_device_stress(rng, k):
     return L
 
 
-def balance_run(rep, impl, programs, stats):
+def balance_run(rep, impl, programs, stats, B=25, tmo=90):
     """programs over real transports: judge only what cannot depend on timing"""
     impl = fresh_impl(impl)
-    B = 25
     for b0 in range(0, len(programs), B):
         batch = programs[b0:b0 + B]
-        out, crash = run_cases(impl, batch, timeout=300)
+        out, crash = run_cases(impl, batch, timeout=tmo)
         script = []
         for k, c in enumerate(batch):
             script.append("mark %d" % k); script.extend(c)
@@ -637,13 +636,13 @@ def balance_run(rep, impl, programs, stats):
     return
 
 
-def fini_check(rep, impl, programs, stats, key=None):
+def fini_check(rep, impl, programs, stats, key=None, tmo=300):
     impl = fresh_impl(impl)
     script = []
     for k, c in enumerate(programs):
         script.append("mark %d" % k); script.extend(c)
     script.append("mark %d" % len(programs))
-    rc, out, err = run_prog(impl, "\n".join(script) + "\n", timeout=600)
+    rc, out, err = run_prog(impl, "\n".join(script) + "\n", timeout=tmo)
     fin = [l for l in out if l.startswith("fini ")]
     if rc == -9 and "ERROR:" not in (err or "") and not fin:
         stats["hangs"] = stats.get("hangs", 0) + 1          # see balance_run: a hang is not C03's subject
@@ -753,15 +752,17 @@ def run(tier, seed, replay=None):
         tick("borrowed")
         # (5) programs over real transports + devices: allocator balance
         transports = ["inproc", "ipc", "tcp"]
-        progs = [gen_program(rng, transports) for _ in range(150 if quick else 5000)]
-        progs += [gen_device_program(rng, ["inproc", "ipc"]) for _ in range(40 if quick else 1500)]
-        progs += [gen_device_stress(rng, k) for k in range(30 if quick else 1200)]
-        balance_run(rep, impl, progs, stats)
+        plain = [gen_program(rng, transports) for _ in range(150 if quick else 5000)]
+        devs = [gen_device_program(rng, ["inproc", "ipc"]) for _ in range(24 if quick else 1500)]
+        devs += [gen_device_stress(rng, k) for k in range(18 if quick else 1200)]
+        balance_run(rep, impl, plain, stats)
+        # device tear-down under traffic can hang the library's reaper (a liveness defect outside C03, see
+        # balance_run): small processes and a short timeout keep such a hang cheap
+        balance_run(rep, impl, devs, stats, B=6, tmo=25)
         tick("balance")
-        plain = [c for c in progs if not any(x.startswith("device ") for x in c)]
-        devs = [c for c in progs if any(x.startswith("device ") for x in c)]
         fini_check(rep, impl, plain[:100 if quick else 600], stats)
-        fini_check(rep, impl, devs[:40 if quick else 400], stats)
+        for k in range(0, len(devs) if not quick else 12, 6):
+            fini_check(rep, impl, devs[k:k + 6], stats, tmo=25)
         tick("fini")
     if not proof_ok and not rep.violations:
         proof_broken_report(rep, cb, "C03 theorems do not check (%s)" % why)
